@@ -7,7 +7,7 @@ J=8
 [ "$1" = "-j" ] && J="$2"
 one() {
   d="$1"; name=$(basename "$d")
-  out=$(tools/runmut.sh "$d/patch.diff" all 2>&1 | grep -v "^RD3\|^OU1 .*\(RunQuickstart\|printVersion\|UsageText\|init#9\)\|^DT10 .*field Graph.Tombstones\|^rules=")
+  out=$(tools/runmut.sh "$d/patch.diff" all 2>&1 | grep -v "^RD3\|^OU1 .*\(RunQuickstart\|printVersion\|UsageText\|init#9\)\|^DT10 .*field Graph.Tombstones\|^WR13 .*prefix-bytes-preserved\|^rules=")
   # a patch written to preserve ONE property may rightly trip a rule of another: listed, with the reason, in expected.txt
   if [ -f "$d/expected.txt" ]; then
     for r in $(awk '{print $1}' "$d/expected.txt"); do out=$(echo "$out" | grep -v "^$r "); done
